@@ -354,7 +354,16 @@ impl StaticResourceController {
 
             let boxed_file = File::open(&static_filepath);
             if boxed_file.is_ok()  {
-                let md = metadata(&static_filepath).unwrap();
+                let boxed_opened_md = metadata(&static_filepath);
+                if boxed_opened_md.is_err() {
+                    // the file was there a moment ago: removed, or not accessible any more
+                    let error = Error {
+                        status_code_reason_phrase: STATUS_CODE_REASON_PHRASE.n500_internal_server_error,
+                        message: boxed_opened_md.err().unwrap().to_string(),
+                    };
+                    return Err(error)
+                }
+                let md = boxed_opened_md.unwrap();
                 if md.is_dir() {
                     let mut range_header = &Header {
                         name: Header::_RANGE.to_string(),
@@ -412,7 +421,15 @@ impl StaticResourceController {
 
                 let boxed_file = File::open(&static_filepath);
                 if boxed_file.is_ok()  {
-                    let md = metadata(&static_filepath).unwrap();
+                    let boxed_opened_md = metadata(&static_filepath);
+                    if boxed_opened_md.is_err() {
+                        let error = Error {
+                            status_code_reason_phrase: STATUS_CODE_REASON_PHRASE.n500_internal_server_error,
+                            message: boxed_opened_md.err().unwrap().to_string(),
+                        };
+                        return Err(error)
+                    }
+                    let md = boxed_opened_md.unwrap();
                     if md.is_file() {
                         let mut range_header = &Header {
                             name: Header::_RANGE.to_string(),
